@@ -2,7 +2,7 @@ use super::*;
 use crate::cache::AsyncLruCache;
 use crate::cache::AsyncLruCacheEntry;
 use crate::error::Qcow2Result;
-use crate::helpers::qcow2_type_of;
+use crate::helpers::{qcow2_type_of, IntAlignment};
 use crate::meta::{L1Entry, L1Table, L2Table, SplitGuestOffset, Table, TableEntry};
 use futures_locks::{RwLock as AsyncRwLock, RwLockWriteGuard as LockWriteGuard};
 use std::collections::hash_map::Entry;
@@ -50,7 +50,12 @@ impl<T: Qcow2IoOps> Qcow2Dev<T> {
     where
         F: FnOnce(&mut Qcow2Header),
     {
-        let buf = h.serialize_to_buf()?;
+        let data = h.serialize_to_buf()?;
+
+        // whole blocks from an aligned buffer, as for any other request
+        let bs = 1usize << self.info.block_size_shift;
+        let mut buf = zeroed_io_buf(data.len().align_up(bs).unwrap());
+        buf[..data.len()].copy_from_slice(&data);
         if let Err(err) = self.call_write(0, &buf).await {
             rollback(h);
             return Err(err);
